@@ -452,6 +452,43 @@ func (w *world) appendLoop(opi int, op Op, limit uint64, minID uint64) *simcore.
 	if wr.LastID() != m.last() {
 		return viol("writer-last-id", "op %d: writer rebuilt from the stored bytes (limit %d) reports last id %d, model %d", opi, limit, wr.LastID(), m.last())
 	}
+	// a long-lived reader that follows the appends through refresh() (as the history
+	// reader does while indexing progresses); only meaningful for pure appends
+	var lr *pathdb.VerifIdxReader
+	if op.K == "app" {
+		if lr, v = w.reader(opi, i); v != nil {
+			return v
+		}
+		// warm its block-reader cache
+		for _, q := range []uint64{0, m.last() / 2, m.last() - 1} {
+			if len(m.ids) > 0 {
+				if v := w.checkGT(opi, i, lr, q); v != nil {
+					return v
+				}
+			}
+		}
+	}
+	refreshed := func() *simcore.Violation {
+		if lr == nil {
+			return nil
+		}
+		if err := lr.Refresh(); err != nil {
+			return viol("refresh-error", "op %d: refresh() of a reader opened before the appends failed: %v", opi, err)
+		}
+		w.res.Probe("reader-refreshed")
+		n := len(m.ids)
+		qs := []uint64{0, m.last(), m.last() - 1, m.ids[w.qr.Intn(n)] - 1}
+		if n > 1 {
+			qs = append(qs, m.ids[n-2], m.ids[n-2]-1)
+		}
+		for _, q := range qs {
+			if v := w.checkGT(opi, i, lr, q); v != nil {
+				v.Msg = "(reader opened before the appends, then refresh()) " + v.Msg
+				return v
+			}
+		}
+		return nil
+	}
 	max := op.N
 	switch op.U {
 	case "sec":
@@ -496,6 +533,9 @@ func (w *world) appendLoop(opi int, op Op, limit uint64, minID uint64) *simcore.
 			if v := w.checkQuick(opi, i); v != nil {
 				return v
 			}
+			if v := refreshed(); v != nil {
+				return v
+			}
 			if wr, v = open(m.last() + uint64(count%2)); v != nil {
 				return v
 			}
@@ -507,6 +547,9 @@ func (w *world) appendLoop(opi int, op Op, limit uint64, minID uint64) *simcore.
 	w.flush(wr.Finish)
 	w.steps++
 	w.logf("app", uint64(opi), uint64(count), m.last())
+	if count > 0 {
+		return refreshed()
+	}
 	return nil
 }
 
@@ -1235,10 +1278,16 @@ func (w *world) corruptionRounds() *simcore.Violation {
 		}
 	}
 	isMeta := func(k []byte) bool { return len(k) >= 2 && k[1] != 'b' }
-	var totalBytes int
+	// bound on the ids any terminating iteration can yield: every Next consumes at least
+	// one byte of one block, and at most one block is visited per descriptor slot (a
+	// corrupted descriptor list may point at the same block several times)
+	var maxLen, slots int
 	for _, k := range keys {
 		v, _ := w.kv.Mem().Get(k)
-		totalBytes += len(v)
+		maxLen = max(maxLen, len(v))
+		if isMeta(k) {
+			slots += len(v)/pathdb.VerifIdxDescSize + 1
+		}
 	}
 	for ci, c := range w.p.Corrupt {
 		key := keys[c.Key%uint64(len(keys))]
@@ -1260,7 +1309,7 @@ func (w *world) corruptionRounds() *simcore.Violation {
 		}
 		w.res.Fault(kind)
 		w.logf("corrupt", uint64(ci), uint64(len(mut)))
-		bound := totalBytes + len(mut) + 64
+		bound := (slots + len(mut)/pathdb.VerifIdxDescSize + 2) * (max(maxLen, len(mut)) + 16)
 		for i := range w.idents {
 			if v := w.exerciseReader(ci, c, i, key, meta, mut, bound); v != nil {
 				if !isKnown(v.Key) {
@@ -1268,7 +1317,7 @@ func (w *world) corruptionRounds() *simcore.Violation {
 				}
 				w.res.KnownHit(v.Key)
 			}
-			if w.p.Writers && isKnown("corrupt-writer-hang") && hasOverflowVarint(mut) {
+			if w.p.Writers && isKnown("corrupt-writer-hang") && (hasOverflowVarint(mut) || endsInContinuation(mut)) {
 				// the recorded non-termination would leak a spinning goroutine per hit
 				w.res.Probe("writer-exercise-skipped-known-hang")
 			} else if w.p.Writers && !hangSeen && os.Getenv("IDXSIM_NOWRITERS") == "" {
@@ -1347,7 +1396,7 @@ func (w *world) exerciseReader(ci int, c Corr, i int, key []byte, meta bool, mut
 			for it.Next() {
 				n++
 				if n > bound {
-					v = viol("corrupt-nontermination", "corruption %d (%s): iteration yields more ids (%d) than there are stored bytes", ci, c.Kind, n)
+					v = viol("corrupt-nontermination", "corruption %d (%s): iteration yields more ids (%d) than the stored descriptors and blocks can encode", ci, c.Kind, n)
 					return
 				}
 			}
@@ -1436,6 +1485,17 @@ func hasOverflowVarint(b []byte) bool {
 		}
 	}
 	return false
+}
+
+// endsInContinuation: the data part of the block (as parseIndexBlock would cut it)
+// ends inside a varint, for which binary.Uvarint returns n == 0: scanSection then
+// stops advancing.
+func endsInContinuation(b []byte) bool {
+	if len(b) == 0 {
+		return false
+	}
+	end := len(b) - (2*int(b[len(b)-1]) + 1)
+	return end > 0 && end <= len(b) && b[end-1] >= 0x80
 }
 
 func blockIDOf(key []byte) uint32 { return binary.BigEndian.Uint32(key[len(key)-4:]) }
@@ -1567,6 +1627,6 @@ func Checks() map[string]*simcore.Check {
 		Gen:  gen, Decode: decode, Run: run, Shrink: shrink,
 		ProbeNames: []string{"block-rotated", "append-opens-restart-section", "pop-closes-restart-section", "pop-crosses-block-boundary", "pop-empties-index",
 			"prune-removed-leading-blocks", "prune-removed-everything", "prune-tail-equals-block-max", "limit-drops-elements", "limit-drops-whole-block", "limit-drops-everything",
-			"filter-match-returned", "corruption-rejected-with-error", "corruption-not-noticed"},
+			"filter-match-returned", "reader-refreshed", "corruption-rejected-with-error", "corruption-not-noticed"},
 	}}
 }
